@@ -497,17 +497,23 @@ func (w *lifeW) server(cy *lifeCycle) {
 	if !ok {
 		return
 	}
-	if w.track && cy.no > 1 && e.Prop == "C07" {
+	if w.track && cy.no > 1 && e.Prop == "C07" && w.curCycle() == cy && !l.ClientEnd {
 		// the client has registered and the server has sent nothing yet: the
 		// tracker must hold just the client itself
 		st := w.c.StateTracker()
-		if st.GetChannel("#life") != nil || st.GetNick("other") != nil || st.GetNick("third") != nil {
-			e.Violation("tracker-not-reset", "after reconnect %d (before the server sent anything) the tracker still holds the previous connection's channel/nicks:\n%s", cy.no, st.String())
+		ch, o1, o2, me := st.GetChannel("#life"), st.GetNick("other"), st.GetNick("third"), st.Me()
+		dump := st.String()
+		// the tracker calls above are scheduling points: the verdict only counts
+		// if this is still the current, live connection (nothing was sent on it)
+		if w.curCycle() == cy && !l.ClientEnd {
+			if ch != nil || o1 != nil || o2 != nil {
+				e.Violation("tracker-not-reset", "after reconnect %d (before the server sent anything) the tracker still holds the previous connection's channel/nicks:\n%s", cy.no, dump)
+			}
+			if me == nil || me.Nick != w.nick || len(me.Channels) != 0 {
+				e.Violation("tracker-not-reset", "after reconnect %d the tracker's own entry is %+v, want nick %q on no channel", cy.no, me, w.nick)
+			}
+			e.Check()
 		}
-		if me := st.Me(); me == nil || me.Nick != w.nick || len(me.Channels) != 0 {
-			e.Violation("tracker-not-reset", "after reconnect %d the tracker's own entry is %+v, want nick %q on no channel", cy.no, me, w.nick)
-		}
-		e.Check()
 	}
 	Welcome(l, w.nick)
 	cy.welcomed = true
